@@ -951,6 +951,9 @@ func (g *Gen) listTarget(level int) *ast.ExprList {
 	}
 	k := g.rng(1, 3, "listitems")
 	keyed := g.O.PHP7 && !g.O.Common && g.chance(1, 4, "keyedlist")
+	if keyed {
+		g.feat("list-keyed")
+	}
 	for i := 0; i < k; i++ {
 		it := &ast.ExprArrayItem{}
 		switch {
@@ -968,6 +971,7 @@ func (g *Gen) listTarget(level int) *ast.ExprList {
 				g.feat("list-short-nested")
 				it.Val = &ast.ExprArray{OpenBracketTkn: g.ch('['), Items: l.Items, SeparatorTkns: l.SeparatorTkns, CloseBracketTkn: g.ch(']')}
 			} else if l.ListTkn == nil {
+				g.Feat["list-short"]-- // drawn short, written in the long form of the enclosing list()
 				l.ListTkn = g.kw(token.T_LIST, "list")
 				l.OpenBracketTkn, l.CloseBracketTkn = g.ch('('), g.ch(')')
 			}
